@@ -175,6 +175,8 @@ def main():
         return 0 if ok else 1
 
     known, fixed = load_known()
+    if hasattr(mod, "pregen"):
+        mod.pregen()          # regenerate translated model files from /repo's current sources before the proofs are checked
     proof = {"ok": True, "obligations": 0, "discharged": 0, "problems": [], "theorems": [], "checker_cmd": "(skipped)"} if a.skip_proof \
         else proof_stage(pid, tier, a.update_expected)
     violations = []          # genuine failing inputs of the property (dicts with 'what', 'replay' …)
